@@ -22,6 +22,65 @@ fn lib<KD: Kind, R>(cx: &mut Ctx, f: impl FnOnce() -> R) -> Result<R, Pk> {
     r
 }
 
+thread_local! {
+    static WEIRD_EQ: std::cell::Cell<bool> = const { std::cell::Cell::new(true) };
+    static WEIRD_CALLS: std::cell::Cell<u32> = const { std::cell::Cell::new(0) };
+}
+/// zero-sized value whose equality is decided by the case, not by its (absent) bytes
+struct Zq;
+impl PartialEq for Zq {
+    fn eq(&self, _: &Zq) -> bool {
+        WEIRD_CALLS.with(|c| c.set(c.get() + 1));
+        WEIRD_EQ.with(|c| c.get())
+    }
+}
+/// sized value whose equality ignores its bytes
+struct Nq(#[allow(dead_code)] u32);
+impl PartialEq for Nq {
+    fn eq(&self, _: &Nq) -> bool {
+        WEIRD_CALLS.with(|c| c.set(c.get() + 1));
+        WEIRD_EQ.with(|c| c.get())
+    }
+}
+
+/// "the same keys with equal values" where only the value type's own `==` says what equal means:
+/// maps over the key sets of the two models, with values that are all equal or all unequal
+/// whatever their bytes are (zero-sized and sized).
+fn weird_values<const N: usize, const M: usize>(cx: &mut Ctx, ml: &BTreeMap<u8, u32>, mr: &BTreeMap<u8, u32>, mode: u8) {
+    let flag = mode & 2 != 0;
+    WEIRD_EQ.with(|c| c.set(flag));
+    let same_keys = ml.keys().eq(mr.keys());
+    let want = same_keys && (ml.is_empty() || flag);
+    let mut za: Map<u8, Zq, N> = Map::new();
+    let mut zb: Map<u8, Zq, M> = Map::new();
+    let mut na: Map<u8, Nq, N> = Map::new();
+    let mut nb: Map<u8, Nq, M> = Map::new();
+    let built = tl::quiet(|| {
+        for k in ml.keys() {
+            za.insert(*k, Zq);
+            // identical bytes when the values are "unequal", different bytes when they are "equal"
+            na.insert(*k, Nq(7));
+        }
+        for k in mr.keys() {
+            zb.insert(*k, Zq);
+            nb.insert(*k, Nq(if flag { 8 + *k as u32 } else { 7 }));
+        }
+    });
+    if built.is_err() || za.len() != ml.len() || zb.len() != mr.len() || na.len() != ml.len() || nb.len() != mr.len() {
+        return;
+    }
+    WEIRD_CALLS.with(|c| c.set(0));
+    let got = [tl::lib(|| za == zb), tl::lib(|| zb == za), tl::lib(|| na == nb), tl::lib(|| nb == na)];
+    let names = ["zero-sized values, left == right", "zero-sized values, right == left", "sized values, left == right", "sized values, right == left"];
+    for (g, n) in got.iter().zip(names) {
+        cx.chk(P14, *g == Ok(want), "equality-by-value-eq", || format!("{n}: {g:?}, but the key sets are {} and the value type's == answers {flag} for every pair (keys {:?} vs {:?})", if same_keys { "the same" } else { "different" }, ml.keys().collect::<Vec<_>>(), mr.keys().collect::<Vec<_>>()));
+    }
+    let ne = tl::lib(|| za != zb);
+    cx.chk(P14, ne == Ok(!want), "equality-by-value-eq", || format!("zero-sized values, left != right: {ne:?}, expected {}", !want));
+    cx.add(S::eq_calls, 5);
+    WEIRD_EQ.with(|c| c.set(true));
+}
+
 type Seq = Vec<(u8, u32, usize, usize)>;
 
 fn observe<KD: Kind, const N: usize>(m: &Map<KD::K, KD::V, N>) -> Seq {
@@ -130,6 +189,7 @@ pub fn run<KD: Kind, const N: usize, const M: usize>(case: &Case, cx: &mut Ctx) 
         cx.log(|| format!("{name} -> {got:?} (model {w})"));
         cx.chk(P14, *got == Ok(*w), "equality", || format!("{name} gives {got:?} for {ml:?} vs {mr:?}"));
     }
+    weird_values::<N, M>(cx, &ml, &mr, case.mode);
     let ol2 = observe::<KD, N>(&l.m);
     let or2 = observe::<KD, M>(&r.m);
     cx.chk(P14, ol2 == ol && or2 == or, "operands-changed", || "comparison changed an operand".into());
